@@ -687,4 +687,7 @@ def build_extra():
     c13.pid = "C07c"
     c13.replay_pid = "C13"
     c13.only_verify = ["Timer.device_removed_from_mode", "Timer.stop"]
-    return [c07b, c13]
+    # overlapping stops: the game mode's own stop waits for every game mode, also one that is already stopping (C06's
+    # game stop set); a stopping mode releases and forgets exactly the queue relays of its own context (C02's relay set)
+    from . import C06, C02
+    return [c07b, c13, C06.game_stop_set("C07g"), C02.relay_player_set("C07q")]
